@@ -503,3 +503,316 @@ theorem fuel_mono_all (c : Cfg) (f : Nat) : ∀ g, f ≤ g →
           · right; rfl
 
 end SqlVerif.Pratt
+namespace SqlVerif.Pratt
+
+/-- the `IN ()` test of `parse_in` -/
+def inlEmpty (c : Cfg) (rest : List Tok) : Bool :=
+  match c.inEmptyList, rest with
+  | true, .sym .RParen :: _ => true
+  | _, _ => false
+
+theorem inlEmpty_true {c : Cfg} {rest : List Tok} (h : inlEmpty c rest = true) :
+    c.inEmptyList = true ∧ ∃ r, rest = .sym .RParen :: r := by
+  unfold inlEmpty at h
+  split at h
+  · rename_i heq; exact ⟨heq, _, rfl⟩
+  · simp at h
+
+mutual
+def costSubexpr (c : Cfg) : Nat → Nat → Nat → List Tok → Nat
+  | 0, _, _, _ => 1
+  | _ + 1, 0, _, _ => 1
+  | f + 1, d + 1, p, ts =>
+    1 + costPrefix c f d ts +
+      (match parsePrefix c f d ts with
+       | .error _ => 0
+       | .ok (e, ts') => costLoop c f d p e ts')
+def costLoop (c : Cfg) : Nat → Nat → Nat → Expr → List Tok → Nat
+  | 0, _, _, _, _ => 1
+  | f + 1, d, p, e, ts =>
+    if p ≥ nextPrec c ts then 1
+    else
+      1 + costInfix c f d e (nextPrec c ts) ts +
+        (match parseInfix c f d e (nextPrec c ts) ts with
+         | .error _ => 0
+         | .ok (e', ts') => costLoop c f d p e' ts')
+def costPrefix (c : Cfg) : Nat → Nat → List Tok → Nat
+  | 0, _, _ => 1
+  | f + 1, d, ts =>
+    if d = 0 then 1 else
+    match prefixHead c ts with
+    | .error _ => 1
+    | .ok (.atom _ _ _) => 1
+    | .ok (.pre _ _ p rest) => 1 + costSubexpr c f d p rest
+    | .ok (.paren rest) => 1 + costSubexpr c f d c.prec.unknown rest
+def costInfix (c : Cfg) : Nat → Nat → Expr → Nat → List Tok → Nat
+  | 0, _, _, _, _ => 1
+  | f + 1, d, _, q, ts =>
+    match infixHead c d q ts with
+    | .error _ => 1
+    | .ok (.right _ _ rest p) => 1 + costSubexpr c f d p rest
+    | .ok (.post _ _ _) => 1
+    | .ok (.like _ _ _ _ rest) => 1 + costSubexpr c f d c.prec.pLike rest
+    | .ok (.between _ _ rest) =>
+      1 + costSubexpr c f d c.prec.pBetween rest +
+        (match parseSubexpr c f d c.prec.pBetween rest with
+         | .error _ => 0
+         | .ok (_, rest') =>
+           match eatKw rest' KW.AND with
+           | none => 0
+           | some (_, rest'') => costSubexpr c f d c.prec.pBetween rest'')
+    | .ok (.inl _ _ rest) =>
+      if c.trailingCommas && peekSym rest .Comma then 1
+      else
+      if inlEmpty c rest then 1 else 1 + costItems c f d rest
+    | .ok (.quant _ _ _ rest p) => 1 + costSubexpr c f d p rest
+def costItems (c : Cfg) : Nat → Nat → List Tok → Nat
+  | 0, _, _ => 1
+  | f + 1, d, ts =>
+    1 + costSubexpr c f d c.prec.unknown ts +
+      (match parseSubexpr c f d c.prec.unknown ts with
+       | .error _ => 0
+       | .ok (_, rest) =>
+         match rest with
+         | .sym .Comma :: rest' =>
+           if c.trailingCommas && listEndAhead rest' then 0 else costItems c f d rest'
+         | _ => 0)
+end
+
+
+theorem cost_all (c : Cfg) (f : Nat) :
+    (∀ d p ts, (∀ e rest, parseSubexpr c f d p ts = .ok (e, rest) →
+        costSubexpr c f d p ts + 1 + 4 * rest.length ≤ 4 * ts.length) ∧
+      costSubexpr c f d p ts ≤ 4 * ts.length + 2) ∧
+    (∀ d p e0 ts, (∀ e rest, loop c f d p e0 ts = .ok (e, rest) →
+        costLoop c f d p e0 ts + 4 * rest.length ≤ 4 * ts.length + 1) ∧
+      costLoop c f d p e0 ts ≤ 4 * ts.length + 2) ∧
+    (∀ d ts, (∀ e rest, parsePrefix c f d ts = .ok (e, rest) →
+        costPrefix c f d ts + 3 + 4 * rest.length ≤ 4 * ts.length) ∧
+      costPrefix c f d ts ≤ 4 * ts.length + 1) ∧
+    (∀ d e0 q ts, (∀ e rest, parseInfix c f d e0 q ts = .ok (e, rest) →
+        costInfix c f d e0 q ts + 1 + 4 * rest.length ≤ 4 * ts.length) ∧
+      costInfix c f d e0 q ts ≤ 4 * ts.length + 1) ∧
+    (∀ d ts, (∀ e rest, parseItems c f d ts = .ok (e, rest) →
+        costItems c f d ts + 4 * rest.length ≤ 4 * ts.length) ∧
+      costItems c f d ts ≤ 4 * ts.length + 3) := by
+  induction f with
+  | zero =>
+    refine ⟨?_, ?_, ?_, ?_, ?_⟩ <;> intros <;>
+      simp [parseSubexpr, loop, parsePrefix, parseInfix, parseItems, costSubexpr, costLoop, costPrefix,
+        costInfix, costItems]
+  | succ f ih =>
+    obtain ⟨ihS, ihL, ihP, ihI, ihT⟩ := ih
+    refine ⟨?_, ?_, ?_, ?_, ?_⟩
+    · -- parseSubexpr
+      intro d p ts
+      cases d with
+      | zero => simp [parseSubexpr, costSubexpr]
+      | succ d =>
+        simp only [parseSubexpr, costSubexpr]
+        have hP := ihP d ts
+        cases hp : parsePrefix c f d ts with
+        | error er => simp; omega
+        | ok v =>
+          obtain ⟨e0, ts'⟩ := v
+          have h1 := hP.1 _ _ hp
+          have hL := ihL d p e0 ts'
+          simp only
+          refine ⟨?_, by omega⟩
+          intro e rest h
+          have := hL.1 _ _ h
+          omega
+    · -- loop
+      intro d p e0 ts
+      simp only [loop, costLoop]
+      split
+      · refine ⟨?_, by omega⟩
+        intro e rest h; simp at h; obtain ⟨_, rfl⟩ := h; omega
+      · have hI := ihI d e0 (nextPrec c ts) ts
+        cases hi : parseInfix c f d e0 (nextPrec c ts) ts with
+        | error er => simp; omega
+        | ok v =>
+          obtain ⟨e1, ts1⟩ := v
+          have h1 := hI.1 _ _ hi
+          have hL := ihL d p e1 ts1
+          simp only
+          refine ⟨?_, by omega⟩
+          intro e rest h
+          have := hL.1 _ _ h
+          omega
+    · -- parsePrefix
+      intro d ts
+      simp only [parsePrefix, costPrefix]
+      split
+      · simp
+      cases hh : prefixHead c ts with
+      | error er => simp
+      | ok plan =>
+        have hl := prefixHead_len _ _ _ hh
+        cases plan with
+        | atom k toks rest =>
+          simp only [PrefixPlan.rest] at hl ⊢
+          refine ⟨?_, by omega⟩
+          intro e r h; obtain ⟨_, rfl⟩ := collateCheck_ok h; omega
+        | pre o t p rest =>
+          simp only [PrefixPlan.rest] at hl ⊢
+          have hS := ihS d p rest
+          refine ⟨?_, by omega⟩
+          intro e r h
+          split at h
+          · simp at h
+          · rename_i e1 r1 hs
+            have := hS.1 _ _ hs
+            obtain ⟨_, rfl⟩ := collateCheck_ok h; omega
+        | paren rest =>
+          simp only [PrefixPlan.rest] at hl ⊢
+          have hS := ihS d c.prec.unknown rest
+          refine ⟨?_, by omega⟩
+          intro e r h
+          split at h
+          · simp at h
+          · rename_i e1 r1 hs
+            have := hS.1 _ _ hs
+            split at h
+            · simp at h
+            · split at h
+              · simp at h
+              · obtain ⟨_, rfl⟩ := collateCheck_ok h; simp at this; omega
+            · simp at h
+    · -- parseInfix
+      intro d e0 q ts
+      simp only [parseInfix, costInfix]
+      cases hh : infixHead c d q ts with
+      | error er => simp
+      | ok plan =>
+        have hl := infixHead_len _ _ _ _ _ hh
+        cases plan with
+        | right k ops rest p =>
+          simp only [InfixPlan.rest] at hl ⊢
+          have hS := ihS d p rest
+          refine ⟨?_, by omega⟩
+          intro e r h
+          split at h
+          · simp at h
+          · rename_i e1 r1 hs
+            have := hS.1 _ _ hs
+            simp at h; obtain ⟨_, rfl⟩ := h; omega
+        | post k ops rest =>
+          simp only [InfixPlan.rest] at hl ⊢
+          refine ⟨?_, by omega⟩
+          intro e r h
+          simp at h; obtain ⟨_, rfl⟩ := h; omega
+        | like k neg any ops rest =>
+          simp only [InfixPlan.rest] at hl ⊢
+          have hS := ihS d c.prec.pLike rest
+          refine ⟨?_, by omega⟩
+          intro e r h
+          split at h
+          · simp at h
+          · rename_i e1 r1 hs
+            have := hS.1 _ _ hs
+            split at h
+            · simp at h
+            · simp at h; obtain ⟨_, rfl⟩ := h; omega
+            · rename_i esc rest'' he
+              have hesc := escapeTail_yield _ _ _ _ he
+              simp at h; obtain ⟨_, rfl⟩ := h
+              rw [hesc] at this; simp at this; omega
+        | between neg ops rest =>
+          simp only [InfixPlan.rest] at hl ⊢
+          have hS := ihS d c.prec.pBetween rest
+          cases hs : parseSubexpr c f d c.prec.pBetween rest with
+          | error er => simp; omega
+          | ok v =>
+            obtain ⟨lo, rest'⟩ := v
+            have h1 := hS.1 _ _ hs
+            simp only
+            cases ha : eatKw rest' KW.AND with
+            | none => simp; omega
+            | some w =>
+              obtain ⟨andTok, rest''⟩ := w
+              have h2 := (eatKw_some_iff _ _ _ _).1 ha
+              rw [h2.1] at h1; simp at h1
+              have hS2 := ihS d c.prec.pBetween rest''
+              simp only
+              refine ⟨?_, by omega⟩
+              intro e r h
+              split at h
+              · simp at h
+              · rename_i hi r3 hs2
+                have := hS2.1 _ _ hs2
+                simp at h; obtain ⟨_, rfl⟩ := h; omega
+        | inl neg ops rest =>
+          simp only [InfixPlan.rest] at hl ⊢
+          by_cases hc : (c.trailingCommas && peekSym rest .Comma) = true
+          · simp [hc]
+          · simp only [hc, Bool.false_eq_true, ↓reduceIte]
+            have hT := ihT d rest
+            cases hE : inlEmpty c rest with
+            | true =>
+              simp only [↓reduceIte]
+              refine ⟨?_, by omega⟩
+              intro e r h
+              obtain ⟨hI, r', rfl⟩ := inlEmpty_true hE
+              simp only [hI] at h
+              simp at h; obtain ⟨_, rfl⟩ := h; simp at hl; omega
+            | false =>
+              simp only [Bool.false_eq_true, ↓reduceIte]
+              refine ⟨?_, by omega⟩
+              intro e r h
+              split at h
+              · rename_i heq; simp [inlEmpty, heq] at hE
+              · split at h
+                · simp at h
+                · rename_i items r1 ht
+                  have := hT.1 _ _ ht
+                  split at h
+                  · simp at h; obtain ⟨_, rfl⟩ := h; simp at this; omega
+                  · simp at h
+        | quant o qk ops rest p =>
+          simp only [InfixPlan.rest] at hl ⊢
+          have hS := ihS d p rest
+          refine ⟨?_, by omega⟩
+          intro e r h
+          split at h
+          · simp at h
+          · rename_i e1 r1 hs
+            have := hS.1 _ _ hs
+            split at h
+            · split at h
+              · simp at h; obtain ⟨_, rfl⟩ := h; simp at this; omega
+              · simp at h
+            · simp at h
+    · -- parseItems
+      intro d ts
+      simp only [parseItems, costItems]
+      have hS := ihS d c.prec.unknown ts
+      cases hs : parseSubexpr c f d c.prec.unknown ts with
+      | error er => simp; omega
+      | ok v =>
+        obtain ⟨e1, r1⟩ := v
+        have h1 := hS.1 _ _ hs
+        simp only
+        split
+        · rename_i rest'
+          simp at h1
+          simp only
+          by_cases hc : (c.trailingCommas && listEndAhead rest') = true
+          · simp [hc]; omega
+          · simp only [hc, Bool.false_eq_true, ↓reduceIte]
+            have hT := ihT d rest'
+            refine ⟨?_, by omega⟩
+            intro e r h
+            split at h
+            · simp at h
+            · rename_i items r2 ht
+              have := hT.1 _ _ ht
+              simp at h; obtain ⟨_, rfl⟩ := h; omega
+        · rename_i hne
+          split
+          · rename_i rest' ; exact absurd rfl (hne rest')
+          · refine ⟨?_, by omega⟩
+            intro e r h
+            simp at h; obtain ⟨_, rfl⟩ := h; omega
+
+end SqlVerif.Pratt
